@@ -330,6 +330,7 @@ func checkC10(r *evid.Run) {
 			checkMassiveState(r, pool, d, conc, rng, rs)
 		})
 	}
+	bigRoots(r, pool)
 	reproduceOpenC10(r, pool)
 	r.Set("exhaustive", false)
 	r.Set("rule", "documents of the spelling model MC_C15 (every notation incl. # roots, blank lines, CRLF; a third of the states), of the malformed-line pool MC_C02 (all states) and of MC_C01 (half), each run through text, JSON, YAML, dry-run, walk (all) and mkdir, verify (every fourth) in simple and in massive mode with GOMAXPROCS in {1,2,4,16}, seeded hook delays and yielding reader/writer/callback; massive output must be a permutation of the specification's per-root blocks, each in one piece; error iff simple mode; same filesystem; non-trivial = at least 2 roots")
@@ -378,6 +379,55 @@ func reproduceOpenC10(r *evid.Run, pool *wproto.Pool) {
 		if rp.Class == "ok" {
 			r.Mismatch(c10Sig(d2, "massive-text", "error-only-in-simple", doc2), fmt.Sprintf("doc=%q: simple mode rejects the space-indented line, massive returned nil with %q (attempt %d)", doc2, rp.Out, k+1), rp)
 			break
+		}
+	}
+}
+
+// bigRoots: roots whose printed form exceeds any buffer size in use (several KiB each), written through
+// a yielding writer by several sink workers at once: every root block must still come out in one piece.
+func bigRoots(r *evid.Run, pool *wproto.Pool) {
+	for rep, nroots := range []int{6, 12} {
+		var doc strings.Builder
+		var blocks []string
+		for i := 0; i < nroots; i++ {
+			var b strings.Builder
+			fmt.Fprintf(&b, "- root%d\n", i)
+			for k := 0; k < 150+40*i; k++ {
+				fmt.Fprintf(&b, "  - child%d-%d\n    - leaf with a longer name %d\n", i, k, k)
+			}
+			doc.WriteString(b.String())
+		}
+		simple := pool.Call(wproto.Req{Op: "output", Doc: doc.String()}, 60*time.Second)
+		if simple.Class != "ok" {
+			r.Broken("bigRoots: simple mode failed: %s", simple.Err)
+			return
+		}
+		// the simple output cut at the root lines
+		cur := ""
+		for _, l := range strings.SplitAfter(simple.Out, "\n") {
+			if strings.HasPrefix(l, "root") && cur != "" {
+				blocks = append(blocks, cur)
+				cur = ""
+			}
+			cur += l
+		}
+		blocks = append(blocks, cur)
+		for _, procs := range []int{2, 4, 16} {
+			for _, route := range []string{"text", "dryrun"} {
+				rq := wproto.Req{Op: "output", Doc: doc.String(), Massive: true, Procs: procs, Yield: 1, Delays: int64(rep*10 + procs)}
+				want := blocks
+				if route == "dryrun" {
+					rq.DryRun = true
+					sd := pool.Call(wproto.Req{Op: "output", Doc: doc.String(), DryRun: true}, 60*time.Second)
+					want = splitReport(sd.Out)
+				}
+				m := pool.Call(rq, 120*time.Second)
+				r.Count("real_calls", 1)
+				if m.Class != "ok" || !isBlockPermutation(m.Out, want) {
+					r.Mismatch("massive-"+route+":big-root-blocks-torn-or-lost", fmt.Sprintf("%d roots of several KiB each, GOMAXPROCS=%d: class=%s err=%q, %d bytes written, simple mode %d bytes; not a permutation of whole root blocks", nroots, procs, m.Class, m.Err, len(m.Out), len(simple.Out)),
+						map[string]any{"roots": nroots, "procs": procs, "route": route})
+				}
+			}
 		}
 	}
 }
